@@ -15,8 +15,9 @@ MANIFEST = {
             "interpreter; extracted-model/implementation correspondence on generated and mutated path strings and "
             "direct compositionality / spelling / parent-unchanged checks on the four Bip32 classes.",
     "note": "The child-key function is a Section variable; str.isnumeric/strip/int() are modelled from tables measured "
-            "on the interpreter (Gen/Unicode.v). F5 (isnumeric admits what int() rejects) is proved as a refutation "
-            "of the current parser and recorded as a known finding.",
+            "on the interpreter (Gen/Unicode.v). F5 (isnumeric admits what int() rejects; the ValueError escaped) was "
+            "repaired in /repo (751715b); the refutation of the parser before the fix is kept as a labelled "
+            "historical theorem, and every numeric-but-not-decimal code point is exercised as an element.",
     "technique": "Coq proof (induction over strings/paths, vm_compute over range tables) + generated-constant "
                  "obligations + extracted-model differential run + direct property checks",
     "ref": "7/C06",
@@ -281,54 +282,6 @@ FUNCS = {
     "derive_compose": Func(direct=direct_compose),
     "derive_spelling": Func(direct=direct_spelling),
 }
-
-
-# ----------------------------------------------------------------------------- known finding F5
-
-def _first_failing_elem_is_f5(s):
-    """Replays the parser's own element loop: is the first rejected element one that passes
-       str.isnumeric() while int() raises?"""
-    if not isinstance(s, str):
-        return False
-    t = s[:-1] if s.endswith("/") else s
-    elems = [e for e in t.split("/") if e]
-    if elems and elems[0] == "m":
-        elems = elems[1:]
-    for e in elems:
-        e = e.strip()
-        if e.endswith(("'", "h", "p")):
-            e = e[:-1]
-        if not e.isnumeric():
-            return False
-        try:
-            int(e)
-        except ValueError:
-            return True
-    return False
-
-
-def f5_numeric_not_int(fn, args, record):
-    if fn == "bip32_parse":
-        s = args[0]
-    elif fn == "bip32_derive_trace":
-        s = args[2]
-    else:
-        return False
-    if not _first_failing_elem_is_f5(s):
-        return False
-    if record.get("kind") == "divergence":
-        return record["model"] == {"err": "Bip32PathError"} and record["impl"] == {"err": "ValueError"}
-    return "raised ValueError instead of Bip32PathError" in record.get("what", "")
-
-
-def f5_numeric_not_int_replay():
-    try:
-        Bip32PathParser.Parse("m/²")
-    except Bip32PathError:
-        return None
-    except ValueError:
-        return "Bip32PathParser.Parse('m/\\u00b2') raises a bare ValueError"
-    return "Bip32PathParser.Parse('m/\\u00b2') is accepted"
 
 
 # ----------------------------------------------------------------------------- generators
